@@ -959,6 +959,7 @@ fn corpus_case(ctx: &mut Ctx, k: usize, emit_corr: bool) {
 pub fn run(ctx: &mut Ctx) {
     if let Some(case) = ctx.replay_only.clone() {
         if super::c11_more::replay(ctx, &case) { return; }
+        if super::c11_indexer::replay(ctx, &case) { return; }
         let sub: u64 = case.get(1).and_then(|s| s.parse().ok()).unwrap_or(0);
         match case.first().map(|s| s.as_str()) {
             Some("corpus") if (sub as usize) < CORPUS.len() => corpus_case(ctx, sub as usize, false),
@@ -1000,5 +1001,6 @@ pub fn run(ctx: &mut Ctx) {
         fastq_case(ctx, sub, true);
     }
     super::c11_more::run(ctx);
+    super::c11_indexer::run(ctx);
     ctx.sample(|| "c11 fai 3e7371300a414347540a41430a3e713120646573630a54545454470a 737130:2:5,737130:9:20,7131:-:-".into());
 }
